@@ -30,6 +30,7 @@
 #include <sys/stat.h>
 #include <netinet/in.h>
 #include <arpa/inet.h>
+#include <stddef.h>
 #include "uv.h"
 
 /* ------------------------------------------------------------------ virtual clock */
@@ -114,8 +115,22 @@ static void walk_count(uv_handle_t* h, void* arg) { (void) h; ++*(int*) arg; }
 static void obs(void) {
   if (loop_closed) { printf("obs closed\n"); return; }
   int n = 0; uv_walk(&loop, walk_count, &n);
-  printf("obs alive=%d ah=%d ar=%d stop=%d nh=%d now=%llu", uv_loop_alive(&loop) != 0, (int) loop.active_handles,
+  printf("obs alive=%d ah=%d ar=%d stop=%d nh=%d now=%llu pq=", uv_loop_alive(&loop) != 0, (int) loop.active_handles,
          (int) loop.active_reqs.count, loop.stop_flag != 0, n, (unsigned long long) uv_now(&loop));
+  {  /* owners of the io watchers queued in loop->pending_queue (public struct field) */
+    struct uv__queue* q; int first = 1;
+    for (q = loop.pending_queue.next; q != &loop.pending_queue; q = q->next) {
+      uv__io_t* w = (uv__io_t*) ((char*) q - offsetof(uv__io_t, pending_queue));
+      int owner = -1;
+      for (int i = 0; i < nh; i++) if (H[i].state == H_LIVE && (H[i].kind == K_UDP || H[i].kind == K_TCP || H[i].kind == K_PIPE)) {
+        uv__io_t* hw = H[i].kind == K_UDP ? &((uv_udp_t*) H[i].ptr)->io_watcher : &((uv_stream_t*) H[i].ptr)->io_watcher;
+        if (hw == w) owner = i;
+      }
+      if (owner >= 0) printf("%sh%d", first ? "" : ",", owner); else printf("%s?", first ? "" : ",");
+      first = 0;
+    }
+    if (first) printf("-");
+  }
   for (int i = 0; i < nh; i++) if (H[i].state == H_LIVE)
     printf(" h%d=%c%c%c", i, uv_is_active(H[i].ptr) ? 'A' : '-', uv_has_ref(H[i].ptr) ? 'R' : '-', uv_is_closing(H[i].ptr) ? 'C' : '-');
   printf("\n");
